@@ -152,7 +152,7 @@ func newContracts() *Contracts {
 var (
 	reTags  = regexp.MustCompile(`^\[([A-Za-z0-9_,\- ]*)\]\s*`)
 	reLabel = regexp.MustCompile(`^([A-Za-z][A-Za-z0-9_\-]*):\s+`)
-	reFunc  = regexp.MustCompile(`^(func|iface|lib|closure)\s+(?:\((\w+)\s+(\*?)([\w./\-]+)\)\.)?([\w./\-$\[\]]+)\s*(?:\(([^)]*)\))?\s*(.*)$`)
+	reFunc  = regexp.MustCompile(`^(func|iface|lib|closure|functype)\s+(?:\((\w+)\s+(\*?)([\w./\-]+)\)\.)?([\w./\-$\[\]]+)\s*(?:\(([^)]*)\))?\s*(.*)$`)
 )
 
 // qualify turns a name relative to package pkgPath into a fully qualified one.
@@ -258,7 +258,7 @@ func (cs *Contracts) loadContractFile(path, pkgPath string, short map[string]str
 			return fmt.Errorf("%s:%d: %s", path, lineNo, fmt.Sprintf(f, a...))
 		}
 		switch word {
-		case "func", "iface", "lib", "closure":
+		case "func", "iface", "lib", "closure", "functype":
 			m := reFunc.FindStringSubmatch(text)
 			if m == nil {
 				return fail("cannot parse function header %q", text)
@@ -281,11 +281,15 @@ func (cs *Contracts) loadContractFile(path, pkgPath string, short map[string]str
 				fc.Key = "iface:" + cs.qualify(name[:i], pkgPath, short) + "." + name[i+1:]
 				fc.Recv = "this"
 			} else if m[1] == "lib" {
-				// lib names are given fully: encoding/json.Unmarshal or (*sync.Mutex).Lock
+				// library function: pkg.Func (package resolved through the imports of the contract's package)
 				fc.Key = name
-				if strings.HasPrefix(name, "(") {
-					fc.Key = name
+				if i := strings.LastIndex(name, "."); i >= 0 {
+					if full, ok := short[name[:i]]; ok {
+						fc.Key = full + name[i:]
+					}
 				}
+			} else if m[1] == "functype" {
+				fc.Key = "functype:" + cs.qualify(name, pkgPath, short)
 			} else {
 				fc.Key = cs.qualify(name, pkgPath, short)
 			}
@@ -328,6 +332,21 @@ func (cs *Contracts) loadContractFile(path, pkgPath string, short map[string]str
 				return fail("%s outside a function contract", word)
 			}
 			rest = cs.expandModSets(rest)
+			if word == "decreases" {
+				// lexicographic measure: decreases e1, e2, ...
+				for _, part := range splitTop(rest) {
+					c, err := parseClause(word, part, path, lineNo)
+					if err != nil {
+						return err
+					}
+					if curL != nil {
+						curL.Decr = append(curL.Decr, c)
+					} else {
+						curF.Decr = append(curF.Decr, c)
+					}
+				}
+				continue
+			}
 			c, err := parseClause(word, rest, path, lineNo)
 			if err != nil {
 				return err
@@ -350,7 +369,7 @@ func (cs *Contracts) loadContractFile(path, pkgPath string, short map[string]str
 			if curL == nil {
 				return fail("invariant outside a loop contract")
 			}
-			c, err := parseClause(word, rest, path, lineNo)
+			c, err := parseClause(word, cs.expandModSets(rest), path, lineNo)
 			if err != nil {
 				return err
 			}
